@@ -532,25 +532,25 @@ def r6_missing_positions(ctx):
     ctx.ob("C12.R6", RDR, "ArffDataReader._sparse", sp, "sparse rows: a `?` value is recognised before a comma and before the closing brace", "' ?,' in" in txt and "' ?}'" in txt, stmt="sparse missing tests")
 
 
-def r7_csv_dialect(ctx):
-    ctx.rule("C12.R7", "CsvReader parses with exactly the dialect its caller gave (the csv module's RFC-4180 defaults otherwise): the constructor stores the given "
+def r7_csv_dialect(ctx, rule="C12.R7"):
+    ctx.rule(rule, "CsvReader parses with exactly the dialect its caller gave (the csv module's RFC-4180 defaults otherwise): the constructor stores the given "
                        "mapping unchanged and filter() hands csv.reader nothing but that mapping")
     init = ctx.fn(RDR, "CsvReader.__init__")
     kwarg = init.args.kwarg.arg if init.args.kwarg else None
     st = [x for x in walk_shallow(init) if isinstance(x, ast.Assign) and any(is_self_attr(t, "_dialect") for t in x.targets)]
     ok = len(st) == 1 and kwarg is not None and unparse(st[0].value) in (kwarg, f"dict({kwarg})", f"dict(**{kwarg})", f"{{**{kwarg}}}")
-    ctx.ob("C12.R7", RDR, "CsvReader.__init__", st[0] if st else init, "the dialect is stored as given (no injected escapechar / quoting / delimiter defaults)", ok,
+    ctx.ob(rule, RDR, "CsvReader.__init__", st[0] if st else init, "the dialect is stored as given (no injected escapechar / quoting / delimiter defaults)", ok,
            detail={"stored": unparse(st[0].value) if st else None}, stmt="csv dialect stored")
     flt = ctx.fn(RDR, "CsvReader.filter")
     calls = [c for c in ast.walk(flt) if isinstance(c, ast.Call) and call_name(c) == "csv.reader"]
-    ctx.floor("C12.R7", "csv.reader calls in CsvReader.filter", len(calls), 1)
+    ctx.floor(rule, "csv.reader calls in CsvReader.filter", len(calls), 1)
     # the lines handed to csv.reader are the input lines minus their terminator: stripping arbitrary whitespace removes leading / trailing delimiters (tab)
     strips = [k for k in ast.walk(flt) if isinstance(k, ast.Call) and call_tail(k) in ("strip", "rstrip", "lstrip") and isinstance(parent(k), (ast.GeneratorExp, ast.ListComp)) and parent(k).elt is k]
-    ctx.ob("C12.R7", RDR, "CsvReader.filter", strips[0] if strips else flt, "only line terminators are stripped from a row before it is parsed (a leading or trailing delimiter belongs to the row)",
+    ctx.ob(rule, RDR, "CsvReader.filter", strips[0] if strips else flt, "only line terminators are stripped from a row before it is parsed (a leading or trailing delimiter belongs to the row)",
            all(k.args and const_str(k.args[0]) is not None and set(const_str(k.args[0])) <= set("\r\n") for k in strips), detail={"strips": [unparse(k) for k in strips]}, stmt="csv row stripping")
     for c in calls:
         kws = [(k.arg, unparse(k.value)) for k in c.keywords]
-        ctx.ob("C12.R7", RDR, "CsvReader.filter", c, "csv.reader receives only the stored dialect", kws == [(None, "self._dialect")], detail={"keywords": kws})
+        ctx.ob(rule, RDR, "CsvReader.filter", c, "csv.reader receives only the stored dialect", kws == [(None, "self._dialect")], detail={"keywords": kws})
 
 
 CONTROLS = [
